@@ -695,7 +695,7 @@ class _SeqBase(Sym):
     __slots__ = ()
 
     def length(self):
-        return SInt(z3.Length(self.t))
+        return SInt(z3.simplify(z3.Length(self.t)))
 
     def __len__(self):
         raise Unsupported('len() of symbolic sequence must go through pyvc len model')
@@ -965,6 +965,139 @@ class SSeq(_SeqBase):
 
 def int_seq(t):
     return SSeq(t, lambda e: SInt(e), as_int_term)
+
+
+class SLow(Sym):
+    """A Python int observed only modulo 2**W ("low-W mode", assumption A-BITS): t is BitVec(W) = the low W bits.
+
+    Sound for ring operations (+ - * ^ | & ~), left shifts by constants, and (x >> s) & m with m < 2**(W-s):
+    two's-complement truncation is a homomorphism for exactly those.  Everything else is Unsupported.
+    """
+    __slots__ = ()
+    W = 64
+
+    @staticmethod
+    def of(v, W=64):
+        if isinstance(v, SLow):
+            return v
+        if isinstance(v, bool):
+            v = int(v)
+        if isinstance(v, int):
+            return SLow(z3.BitVecVal(v % (1 << W), W))
+        if isinstance(v, (SInt, SBool)):
+            return SLow(z3.Int2BV(as_int_term(v), W))
+        raise Unsupported('cannot view %r in low-%d mode' % (type(v).__name__, W))
+
+    def _w(self):
+        return self.t.size()
+
+    def _o(self, o):
+        if isinstance(o, (SLow, int, SInt, SBool)) and not isinstance(o, float):
+            return SLow.of(o, self._w()).t
+        return None
+
+    def _bin(self, o, f):
+        ot = self._o(o)
+        if ot is None:
+            return NotImplemented
+        return SLow(f(self.t, ot))
+
+    def __add__(self, o): return self._bin(o, lambda a, b: a + b)
+    __radd__ = __add__
+    def __sub__(self, o): return self._bin(o, lambda a, b: a - b)
+    def __rsub__(self, o): return self._bin(o, lambda a, b: b - a)
+    def __mul__(self, o): return self._bin(o, lambda a, b: a * b)
+    __rmul__ = __mul__
+    def __xor__(self, o): return self._bin(o, lambda a, b: a ^ b)
+    __rxor__ = __xor__
+    def __or__(self, o):
+        ot = self._o(o)
+        if ot is None:
+            return NotImplemented
+        rot = _as_rotate(self.t, ot)
+        if rot is None:
+            rot = _as_rotate(ot, self.t)
+        if rot is not None:
+            return SLow(rot)
+        return SLow(self.t | ot)
+    __ror__ = __or__
+    def __and__(self, o): return self._bin(o, lambda a, b: a & b)
+    __rand__ = __and__
+
+    def __neg__(self):
+        return SLow(-self.t)
+
+    def __invert__(self):
+        return SLow(~self.t)
+
+    def __lshift__(self, o):
+        c = concrete_int(o)
+        if c is None or c < 0:
+            raise Unsupported('low-mode shift by symbolic amount')
+        if c >= self._w():
+            return SLow(z3.BitVecVal(0, self._w()))
+        return SLow(self.t << c)
+
+    def __rshift__(self, o):
+        c = concrete_int(o)
+        if c is None or c < 0:
+            raise Unsupported('low-mode shift by symbolic amount')
+        return _SLowShifted(self, c)
+
+    def __bool__(self):
+        raise Unsupported('truth value of an int known only modulo 2**%d' % self._w())
+
+    def __eq__(self, o):
+        raise Unsupported('comparison of an int known only modulo 2**%d' % self._w())
+
+    __ne__ = __lt__ = __le__ = __gt__ = __ge__ = __eq__
+    __hash__ = object.__hash__
+
+    def signed(self):
+        """The signed W-bit value as a mathematical int."""
+        return SInt(z3.BV2Int(self.t, is_signed=True))
+
+    def unsigned(self):
+        return SInt(z3.BV2Int(self.t, is_signed=False))
+
+
+def _as_rotate(a, b):
+    """(x << r) | (x >>> (W - r))  ==  rotate_left(x, r): recognise the idiom so both sides share one term."""
+    try:
+        if a.decl().kind() == z3.Z3_OP_BSHL and b.decl().kind() == z3.Z3_OP_BLSHR and a.arg(0).eq(b.arg(0)) \
+                and z3.is_bv_value(a.arg(1)) and z3.is_bv_value(b.arg(1)):
+            r, s_, W = a.arg(1).as_long(), b.arg(1).as_long(), a.size()
+            if 0 < r < W and r + s_ == W:
+                return z3.RotateLeft(a.arg(0), r)
+    except Exception:
+        pass
+    return None
+
+
+class _SLowShifted(object):
+    """x >> s in low-W mode: only `& mask` with mask < 2**(W-s) may follow (the only bits that are known)."""
+
+    def __init__(self, x, s):
+        self.x = x
+        self.s = s
+
+    def __and__(self, o):
+        m = concrete_int(o)
+        W = self.x._w()
+        if m is None or m < 0 or self.s >= W or m >= (1 << (W - self.s)):
+            raise Unsupported('low-mode (x >> %d) & mask with mask outside the known bits' % self.s)
+        if m == (1 << (W - self.s)) - 1:
+            return SLow(z3.LShR(self.x.t, self.s))          # the mask keeps every bit the shift leaves
+        return SLow(z3.LShR(self.x.t, self.s) & z3.BitVecVal(m, W))
+
+    __rand__ = __and__
+
+    def _bad(self, *a, **k):
+        raise Unsupported('low-mode right shift must be followed by a mask of the known bits')
+
+    __or__ = __ror__ = __xor__ = __rxor__ = __add__ = __radd__ = __mul__ = __rmul__ = __sub__ = __rsub__ = _bad
+    __bool__ = __eq__ = __lt__ = _bad
+    __hash__ = object.__hash__
 
 
 class SU(Sym):
